@@ -145,6 +145,31 @@ def fifo_etc(radio, agg, lite=False):
     return n
 
 
+def cached_status(radio, st):
+    cell = st.heap[radio.ref.ident]
+    if radio.model.status[0] == "field":
+        return cell.fields.get(radio.model.status[1])
+    buf = cell.fields.get(radio.model.status[1])
+    if isinstance(buf, Ref) and st.heap[buf.ident].items:
+        return st.heap[buf.ident].items[0]
+    return None
+
+
+def status_untouched(radio, agg, f, out, label):
+    """R10.7: what the flag / FIFO attributes decode is the STATUS byte of the last SPI transfer - software never edits the cached byte
+    (the radio's latched events can only be learnt from the radio)"""
+    from ..absval import sym_bits, BitV
+    n = out.state.extra.get("txn", 0)
+    if n <= 0 or out.state.extra.get("status_pin") is not None:
+        return
+    sv = sym_bits(lambda i: ("status", n, i), 8)
+    want = BitV(tuple(0 if i == 7 else b for i, b in enumerate(sv.bits)), 0, (0, 127))
+    got = cached_status(radio, out.state)
+    ok = got is not None and hasattr(got, "key") and norm(got).key() == want.key()
+    agg.add("R10.7", f, "the cached STATUS byte is the one clocked out by the last SPI transfer, unedited", ok,
+            "%s: after the call the cached STATUS is %r - not the byte of transfer %d; the IRQ flag / FIFO attributes then report what software assumed, not what the radio latched" % (label, got, n))
+
+
 def flags_and_flush(radio, agg):
     n = 0
     f = radio.prog.method(radio.cls, "clear_status_flags")
@@ -158,6 +183,8 @@ def flags_and_flush(radio, agg):
                     ok = out.kind == "return" and len(w) == 1 and w[0][1] == 7 and const_of(norm(w[0][2])) == exp and len(spi_events(out)) == 1
                     agg.add("R10.3", f, "writes exactly the requested flag bits to STATUS", ok,
                             "clear_status_flags(%r,%r,%r): writes %r, datasheet STATUS<-0x%02X" % (dr, ds, df, [(regname(x[1]) if x[1] is not None else x[3], x[2]) for x in w], exp))
+                    if out.kind == "return":
+                        status_untouched(radio, agg, f, out, "clear_status_flags(%r,%r,%r)" % (dr, ds, df))
     for out in radio.run(f, [], radio.fresh()):
         w = regwrites(out)
         agg.add("R10.3", f, "default clears all three flags", len(w) == 1 and w[0][1] == 7 and const_of(norm(w[0][2])) == 0x70, "writes %r" % [(x[1], x[2]) for x in w])
@@ -168,6 +195,8 @@ def flags_and_flush(radio, agg):
             cs = cmds(out)
             ok = out.kind == "return" and [c for c, _e in cs] == [code] and len(spi_events(out)) == 1 and cs[0][1].data[1] is None
             agg.add("R10.4", g, "%s issues exactly command 0x%02X" % (name, code), ok, "SPI: %r" % [(e.kind, e.data[0]) for e in spi_events(out)])
+            if out.kind == "return":
+                status_untouched(radio, agg, g, out, name + "()")
     return n
 
 
